@@ -1,6 +1,7 @@
 import FcpptModel.Spec.C07
 import FcpptProofs.C07.Finish
 import FcpptProofs.C07.Extra
+import FcpptProofs.C07.Failure
 /-!
 # C07 — property theorems
 
@@ -263,6 +264,91 @@ theorem read_chars_spec (g : Nat → Nat → Nat) (hg : ∀ n c, n ≤ g n c) {h
     | some xs => ∃ h' v, readChars g h input count = .ok (h', some v) ∧ Owns h' v xs ∧ Frame h none h' v.base
     | none => ∃ h', readChars g h input count = .ok (h', none) ∧ Frame h none h' none :=
   readChars_spec g hg hwf input count
+
+/-! ## allocation failure (`std::bad_alloc` from `allocate`) -/
+
+/-- Strong guarantee, for every failure schedule `i`: when an operation on one vector other than the single-pass range insert
+(push_back, the three inserts incl. own ranges, resize, reserve, shrink_to_fit, …) or an operation on one buffer
+(`resize_write_area`, `append_from`, `append_from_opt`) throws, heap and all registers are exactly as before — so the ownership
+invariant still holds (no dangling register, no double free, no leak at `finish`), for the same specification state. -/
+theorem alloc_failure_strong_guarantee (i : Inj) (g : Nat → Nat → Nat) {st st' : St} {ss : SSt} (G : GInv st ss) (o : Op)
+    (ho : (∃ r vo, o = .v r vo ∧ ∀ pos xs, vo ≠ .insertRange pos xs false) ∨ ∃ k bo, o = .b k bo) (ret : Option Nat)
+    (he : stepF i g st o = .ok (.threw st', ret)) :
+    st'.heap = st.heap ∧ st'.vec = st.vec ∧ st'.buf = st.buf ∧ GInv st' ss := by
+  have fin : st'.heap = st.heap → st'.vec = st.vec → st'.buf = st.buf →
+      st'.heap = st.heap ∧ st'.vec = st.vec ∧ st'.buf = st.buf ∧ GInv st' ss := fun h1 h2 h3 => by
+    refine ⟨h1, h2, h3, ?_⟩
+    cases st' with | mk a b c =>
+    cases st with | mk a' b' c' =>
+    simp only at h1 h2 h3
+    subst h1; subst h2; subst h3
+    exact G
+  rcases ho with ⟨r, vo, rfl, hne⟩ | ⟨k, bo, rfl⟩
+  · simp only [stepF, bind_eq_ok] at he
+    obtain ⟨⟨x, i'⟩, hx, he⟩ := he
+    cases x with
+    | done y => simp only [pure_eq_ok, Except.ok.injEq, Prod.mk.injEq] at he; obtain ⟨hc, _⟩ := he; cases hc
+    | threw y =>
+      obtain ⟨h', v', r'⟩ := y
+      obtain ⟨rfl, rfl⟩ := vstepF_threw hne hx
+      simp only [pure_eq_ok, Except.ok.injEq, Prod.mk.injEq, Out.threw.injEq] at he
+      obtain ⟨rfl, _⟩ := he
+      exact fin rfl (upd_self _ _) rfl
+  · simp only [stepF, bind_eq_ok] at he
+    obtain ⟨⟨x, i'⟩, hx, he⟩ := he
+    cases x with
+    | done y => simp only [pure_eq_ok, Except.ok.injEq, Prod.mk.injEq] at he; obtain ⟨hc, _⟩ := he; cases hc
+    | threw y =>
+      obtain ⟨h', b', r'⟩ := y
+      obtain ⟨rfl, rfl⟩ := bstepF_threw hx
+      simp only [pure_eq_ok, Except.ok.injEq, Prod.mk.injEq, Out.threw.injEq] at he
+      obtain ⟨rfl, _⟩ := he
+      exact fin rfl rfl (upd_self _ _)
+
+/-- a history in which allocations fail, evaluated with the code's policy: a failing `reserve` on an emptied vector that still
+owns its store, a failing `shrink_to_fit`, a failing reallocating `push_back`, the single-pass insert failing at its second
+allocation (basic guarantee: the first element stays), failing constructors (register left null), a failing
+`resize_write_area` — every register stays usable and the destructors leave no block and free none twice -/
+example :
+    (do let run := fun (st : St) (i : Inj) (o : Op) => (do
+          let x ← stepF i growth st o
+          match x.1 with | .done s => pure s | .threw s => pure s : M St)
+        let st ← run St.init Inj.none (.ctor 0 (.il [1, 2, 3]))
+        let st ← run st Inj.none (.v 0 .clear)
+        let st ← run st ⟨some 1, none⟩ (.v 0 (.reserve 10))
+        let st ← run st Inj.none (.v 0 (.pushBack (.val 7)))
+        let st ← run st ⟨some 1, none⟩ (.v 0 .shrink)
+        let st ← run st ⟨none, some 3⟩ (.v 0 (.insertN 0 5 (.slot 0)))
+        let st ← run st ⟨some 2, none⟩ (.v 1 (.insertRange 0 [4, 5, 6] false))
+        let st ← run st ⟨some 1, none⟩ (.ctor 2 (.count 4 9))
+        let st ← run st Inj.none (.bctor 0 2)
+        let st ← run st ⟨some 1, none⟩ (.b 0 (.append 5 [1]))
+        let st ← run st ⟨some 2, none⟩ (.bread 1 4 [1, 2])
+        let a ← toList st.heap (st.vec 0)
+        let b ← toList st.heap (st.vec 1)
+        let c ← toList st.heap (st.vec 2)
+        let h ← finish st 3 2
+        pure (a, b, c, (st.vec 0).cap, (st.buf 0).writeSize, st.heap.liveCount, h.liveCount)) =
+      Except.ok ([7], [4], [], 3, 2, 3, 0) := by rfl
+
+/-- the seeded variant of `reallocate` (an empty vector gives its store back *before* the new one is allocated) is refuted:
+when that allocation throws, the vector still has the pointers of a block that is no longer allocated, and its destructor
+frees it a second time; the code's order (`vstepF`: allocate first) leaves heap and vector as they were -/
+example :
+    (do let a ← construct growth Heap.empty (.il [1, 2, 3])
+        let c ← clear a.1 a.2
+        let r ← reallocateFreeFirstF ⟨some 1, none⟩ c.1 c.2 10
+        match r with
+        | .done _ => pure (false, false)
+        | .threw s => pure ((s.2.base.bind fun b => s.1.slot b).isNone && s.2.base.isSome,
+                            (match deallocate s.1 s.2 with | .error .doubleFree => true | _ => false))) = Except.ok (true, true) ∧
+    (do let a ← construct growth Heap.empty (.il [1, 2, 3])
+        let c ← clear a.1 a.2
+        let r ← vstepF ⟨some 1, none⟩ growth c.1 c.2 (.reserve 10)
+        match r.1 with
+        | .done _ => pure (false, false)
+        | .threw s => pure ((s.2.1.base.bind fun b => s.1.slot b).isSome,
+                            (deallocate s.1 s.2.1).toOption.isSome)) = Except.ok (true, true) := ⟨by rfl, by rfl⟩
 
 /-! ## derived comparison operators, dynamic_array -/
 
